@@ -12,4 +12,10 @@ CHECKS = {
         "text": "will_conversion_truncate / will_conversion_overflow / is_conversion_lossy are evaluated on every value of the C03 streams and compared with the exact predicates (rational comparison in 128-bit sign-magnitude arithmetic); floating reps are judged outside a 2^-20 guard band around max/f. The per-instance 64-bit proof mentioned in the property's quantifier is a different technique family and is not attempted; it is replaced by threshold-neighbourhood completeness plus exhaustive narrow-type runs of the same template.",
         "note": "Trusted: oracle in harness/vf_conv.hh; instances whose conversion does not compile are excluded as the property states (logged as leads).",
     },
+    "C05": {
+        "module": ("vf.props.c05", "C05"), "engine": "planeA",
+        "technique": "runtime monitoring: UBSan float-cast-overflow / integer traps attributed per input + exact per-step oracle on bit patterns",
+        "text": "All 121 ordered rep pairs x factors: the <T> checkers and every spelling of the rep-changing conversion are executed on exhaustive 8/16-bit sources, per-step threshold neighbourhoods, nextafter walks around each target limit, NaN/inf/zeros/denormals and random patterns, under gcc and clang sanitizers in trap mode. Cleared inputs must convert without a trap to the exact (integral) or tolerance-bounded (floating) value; uncastable inputs must be reported lossy; for integral sources overflow may be reported only when a step really leaves its range.",
+        "note": "Trusted: oracle in harness/vf_repconv.hh (128-bit integer steps; long double with stated ulp tolerances for floating paths); wide sources are sampled.",
+    },
 }
